@@ -212,6 +212,7 @@ func (s *gsched) waitFor(expect map[string]gateKey, d time.Duration) string {
 // ---------------------------------------------------------------- scripts
 
 type abortCfg struct {
+	NoPool   bool // the callback uses Invoke without Acquire / Release
 	Name     string
 	Mode     string // run | eval
 	Src      string // root script
@@ -225,6 +226,8 @@ const cbChildFin = "f := func() { return 1 }\n"
 var abortCfgs = map[string]abortCfg{
 	"run-cb2-inf": {Name: "run-cb2-inf", Mode: "run", ChildInf: true,
 		Src: "global cb\n%scb(f)\ncb(f)\nreturn 7\n"},
+	"run-cb1-nopool": {Name: "run-cb1-nopool", Mode: "run", ChildInf: true, NoPool: true,
+		Src: "global cb\n%scb(f)\nreturn 7\n"},
 	"run-cb1-fin": {Name: "run-cb1-fin", Mode: "run", ChildInf: false,
 		Src: "global cb\n%sx := cb(f)\nreturn x + 6\n"},
 	"run-plain": {Name: "run-plain", Mode: "run", RootInf: true,
@@ -245,11 +248,15 @@ func (c abortCfg) source(forShape bool) string {
 	return fmt.Sprintf(c.Src, child)
 }
 
-func cbFunc() *ugo.Function {
+func cbFunc() *ugo.Function { return cbFuncFor(false) }
+
+func cbFuncFor(noPool bool) *ugo.Function {
 	return &ugo.Function{Name: "cb", ValueEx: func(c ugo.Call) (ugo.Object, error) {
 		inv := ugo.NewInvoker(c.VM(), c.Get(0))
-		inv.Acquire()
-		defer inv.Release()
+		if !noPool {
+			inv.Acquire()
+			defer inv.Release()
+		}
 		return inv.Invoke()
 	}}
 }
@@ -268,7 +275,7 @@ func abortShape(c abortCfg) (shape, error) {
 	sh := shape{RootInf: c.RootInf, LoopTo: 1, ChildLen: -1, Mode: c.Mode}
 	var vm *ugo.VM
 	var eval *ugo.Eval
-	globals := ugo.Map{"cb": cbFunc()}
+	globals := ugo.Map{"cb": cbFuncFor(c.NoPool)}
 	if c.Mode == "eval" {
 		eval = ugo.NewEval(ugo.CompilerOptions{}, globals)
 		vm = eval.VM
@@ -427,7 +434,7 @@ func replayAbort(cfg abortCfg, sc schedCase, n int) replayResult {
 		rr.Verdict, rr.What = "skipped", "compile: "+err.Error()
 		return rr
 	}
-	globals := ugo.Map{"cb": cbFunc()}
+	globals := ugo.Map{"cb": cbFuncFor(cfg.NoPool)}
 	vm := ugo.NewVM(bc)
 	s := newGsched()
 	s.root = vm
